@@ -6,6 +6,8 @@ import mdgen
 from parsecommon import project, fields, parse_tree
 
 COQ_TARGETS = ["props/C02.vo"]
+SECOND_BUILD = "noopt"
+RELEASE_SAME = False
 RELEASE_TOO = False
 RULE = ("parse cases from adversarial nesting families (block quotes, bullet/ordered lists, links, images, brackets, mixed, emphasis, "
         "code spans, HTML) at depths 1x..200x the limit, plus generated documents, x limits {0,1,2,3,10,100}; the oracle demands "
@@ -53,6 +55,10 @@ def cases(rng, tier, Case):
             for doc in (inner, outer, "![" * 3 + outer + "](u)" * 3, "*" + outer + "*"):
                 for cfg in ("8Cs", "Cs8", "nebp8"):
                     res.append(Case("parse %s %d TW %s" % (cfg, nest, hx(doc)), "family", {"cfg": cfg, "nest": nest, "src": hx(doc)}, compare=len(doc) < 400))
+    # wide, flat trees: recursion (walk, walk_mut, render, drop) is per level, never per sibling (seed C02-8)
+    for w in (3000, 20000) if not big else (3000, 20000, 100000):
+        for d in ("a\n\n" * w, "- a\n" * w, "*a* " * w, "> a\n\n" * w, "# a\n" * w, "a\\\n" * w, "[a](u)" * w):
+            res.append(Case("parse CsW 100 TW %s" % hx(d), "wide", {"cfg": "CsW", "nest": 100, "src": hx(d)}, compare=False))
     n = 300 if tier == "quick" else 20000
     for _ in range(n):
         d = mdgen.clean_utf8(mdgen.gen_doc(rng))
@@ -91,6 +97,10 @@ def oracle(case, io, mo):
         return "recursion gauge %s exceeds limit+2 = %d" % (g, nest + 2)
     if "walk" not in f:
         return "walk did not complete"
+    if "wstk" in f:
+        wd = int(f["walk"].split("/")[1])
+        if int(f["wstk"]) > 4096 * (wd + 8):
+            return "walk/walk_mut used %s bytes of stack on a tree of depth %d: recursion is not bounded by the depth" % (f["wstk"], wd)
     if full > bound:
         return "EMPH tree depth %d exceeds 3*limit+4 = %d through emphasis wrappers only" % (full, bound)
     return None
